@@ -872,4 +872,17 @@ def anteOkTopOld (tops : List Top) (grants : Addr → Addr → Bool) : Bool :=
 /-- the messages authz runs on the grantee's word alone: declared signer = grantee (no authorisation record is read) -/
 def execNeedsNoAuthorisation (grantee : Addr) (m : Msg) : Bool := m.signers == [grantee]
 
+/-! ## Messages dispatched by a contract (`CosmosMsg::Any`)
+
+wasmd runs a protobuf message of a contract when the message's declared signers are the contract itself
+(`handleAnyMsg`: every signer must equal the contract address); no ante handler is involved.  Since /repo `72c8766b`
+Paloma's message router in front of it (`libwasm.router.verifyCreator`) also demands that a message with metadata
+names the contract as its creator. -/
+
+/-- wasmd's own condition -/
+def wasmSignerOk (contract : Addr) (m : Msg) : Bool := m.signers.all (· == contract) && !m.signers.isEmpty
+
+/-- the router's gate plus wasmd's condition (current tree) -/
+def wasmDispatchOk (contract : Addr) (m : Msg) : Bool := m.creator == contract && wasmSignerOk contract m
+
 end Paloma.Auth
